@@ -55,9 +55,11 @@ pub fn verif_parse_sexp(start: Srcloc, content: &Vec<u8>) -> (r: Result<Vec<Rc<S
 // R4: `v.iter().map(|x| Rc::new(x.clone())).collect()` -> opaque helper (the result is not constrained by any contract here)
 #[verifier::external_body]
 pub fn verif_rc_each(v: &Vec<SExp>) -> Vec<Rc<SExp>> { unimplemented!() }
-// R38: what process_embed does with the bytes after reading them (bin / hex / sexp conversion) -> opaque
+// R38: what process_embed does with the bytes of a bin / hex embed after reading them -> opaque
 #[verifier::external_body]
-pub fn verif_embed_content(loc: &Srcloc, kind: &IncludeProcessType, full_name: &String, content: Vec<u8>) -> Result<Rc<SExp>, CompileErr> { unimplemented!() }
+pub fn verif_embed_bin(loc: &Srcloc, content: Vec<u8>) -> Rc<SExp> { unimplemented!() }
+#[verifier::external_body]
+pub fn verif_embed_hex(loc: &Srcloc, content: &Vec<u8>) -> Result<Rc<SExp>, CompileErr> { unimplemented!() }
 //@ extract fn compose_defconst from src/compiler/preprocessor/mod.rs
 //@ stub
 //@ end
@@ -157,10 +159,17 @@ impl Preprocessor {
         // C18: the file just read is named in the listing
         assert(!known_dialect(decoded(include.name@)) ==> exists|i: int| 0 <= i < includes@.len() && (#[trigger] includes@[i]).name@ == string_bytes(filename_and_content.0@));
 //@ end
-//@ note process_embed: the one file it reads is the one named by its fname argument, resolved from the current file (the caller has listed it, see process_pp_form); everything after the read is cut (R38)
+//@ note process_embed: the one file it reads is the one named by its fname argument, resolved from the current file (the caller has listed it, see process_pp_form); the bin and hex conversions after the read are cut (R38), the sexp arm is kept: it indexes the first parsed form only when there is exactly one (C14)
 //@ extract fn process_embed from src/compiler/preprocessor/mod.rs in impl Preprocessor
+//@ canary index_without_count_test @<if parsed.len() != 1 {>@ => @<if parsed.len() > 1 {>@
 //@ replace-upto R38 @<let mut allocator = Allocator::new();>@ @<let (full_name, content) = self>@ => @<>@
-//@ replace-upto R38 @<let content = match kind {>@ @<Ok(vec![compose_defconst(>@ => @<let content = verif_embed_content(&loc, kind, &full_name, content)?; >@
+//@ replace-upto R38 @<let content = match kind {>@ @<IncludeProcessType::SExpression => {>@ => @<let content = match kind { IncludeProcessType::Bin => verif_embed_bin(&loc, content), IncludeProcessType::Hex => verif_embed_hex(&loc, &content)?, >@
+//@ replace-block R36
+                let parsed = parse_sexp(Srcloc::start(&full_name), content.iter().copied())
+                    .map_err(|e| CompileErr(e.0, e.1))?;
+//@ with
+                let parsed = verif_parse_sexp(Srcloc::start(&full_name), &content)?;
+//@ replace R1 @<format!("More than one form in {fname}")>@ => @<verif_opaque_string()>@
 //@ sig r
     ensures pp_opts(*final(self)) == pp_opts(*old(self)),
 //@ after stmt @<let (full_name, content) = self>@
